@@ -127,26 +127,31 @@ Proof.
 Qed.
 
 Definition aborted_phase (ph : cphase18) : bool :=
-  match ph with PIdle | PWaitAck | PSending | PConnecting | PRecovery | PRetryWait => true | _ => false end.
+  match ph with
+  | PIdle | PWaitAck | PSending | PConnecting | PRecovery | PRetryWait => true
+  | PSendingLate | PConnectingLate => late_abort sh
+  | PStuck => false
+  end.
 
 (* every wait the client passes after the stop - on the session the stop signal aborts, in the retry wait, while
    connecting - has a stop edge: the client finishes without waiting for any deadline *)
 Lemma client_instant_lemma : forall ph, aborted_phase ph = true -> bnd (client p sh ph) = Some 0.
 Proof.
   destruct params_nonneg as (H1 & H2 & H3 & H4 & H5 & H6 & H7 & H8).
-  intros ph Ha. destruct ph; try discriminate; unfold client, send_aborted; cbn [bnd omin oadd].
+  intros ph Ha. destruct ph; cbn [aborted_phase] in Ha; try discriminate; unfold client, send_aborted; try rewrite Ha; cbn [bnd omin oadd].
   all: try (destruct (n_win sh); cbn [bnd omin oadd]).
   all: rewrite ?bnd_collect, ?bnd_final, ?bnd_after_failed_send; simpl; f_equal; lia.
 Qed.
 
 (* a session opened after the abort-on-stop callback has run is not aborted: its sends are bounded by their
    deadline only *)
-Lemma client_late_lemma :
+Lemma client_late_lemma : late_abort sh = false ->
   bnd (client p sh PSendingLate) = Some (t_send p) /\
   bnd (client p sh PConnectingLate) = Some (Z.of_nat (n_left sh) * t_send p).
 Proof.
+  intros Hl.
   destruct params_nonneg as (H1 & H2 & H3 & H4 & H5 & H6 & H7 & H8).
-  unfold client, send_live. cbn [bnd omin oadd]. rewrite bnd_collect, bnd_final.
+  unfold client, send_live. rewrite Hl. cbn [bnd omin oadd]. rewrite bnd_collect, bnd_final.
   assert (Hs : bnd (Seq (Wait false (Some (t_send p))) (Wait true None)) = Some (t_send p)) by (simpl; f_equal; lia).
   rewrite (bnd_seqn _ _ _ Hs). simpl. split; f_equal; lia.
 Qed.
@@ -161,6 +166,7 @@ Proof.
   assert (Hf : wf (final sh) = true) by (unfold final; cbn [wf]; rewrite wf_seqn by reflexivity; reflexivity).
   assert (Ha : wf (after_failed_send p sh) = true) by (unfold after_failed_send; cbn [wf]; rewrite Hc, Hf; simpl; lia).
   intros ph. destruct ph; unfold client, send_aborted, send_live; cbn [wf].
+  all: try (destruct (late_abort sh); cbn [wf]).
   all: try (destruct (n_win sh); cbn [wf]).
   all: rewrite ?Hc, ?Hf, ?Ha, ?wf_seqn; simpl; try lia.
   all: cbn [wf]; simpl; lia.
@@ -286,12 +292,15 @@ End Agent.
 
 (* production values of defs/params.go in seconds, a 1 MiB chunk (90 s + 1 MiB / 10 KiB/s = 192 s to send) *)
 Definition prod_params : params := PR 1 60 240 60 192 120 180 10.
-Definition prod_shape : shape := SH 100 4 50 2 4 250 true true.
+(* prod_shape: the original code (late_abort = false); prod_shape_repaired: with the repair *)
+Definition prod_shape : shape := SH 100 4 50 2 4 250 true true false.
+Definition prod_shape_repaired : shape := SH 100 4 50 2 4 250 true true true.
 
 Lemma prod_example_lemma :
-  params_ok prod_params = true /\ B prod_params prod_shape = 600 /\
-  bnd (agent prod_params prod_shape PSending) = Some 0 /\
-  bnd (agent prod_params prod_shape PStuck) = Some 600.
+  params_ok prod_params = true /\ B prod_params prod_shape_repaired = 600 /\
+  bnd (agent prod_params prod_shape_repaired PSending) = Some 0 /\
+  bnd (agent prod_params prod_shape_repaired PConnectingLate) = Some 0 /\
+  bnd (agent prod_params prod_shape_repaired PStuck) = Some 600.
 Proof. vm_compute. repeat split; reflexivity. Qed.
 
 (* the observation of the design: a session opened after the abort-on-stop callback ran is not aborted; with
@@ -300,3 +309,11 @@ Proof. vm_compute. repeat split; reflexivity. Qed.
 Lemma late_session_exceeds_destroy_deadline_lemma :
   exists c, bnd (client prod_params prod_shape PConnectingLate) = Some c /\ run_timeout prod_params prod_shape < c.
 Proof. eexists. split; [vm_compute; reflexivity|]. vm_compute. reflexivity. Qed.
+
+Lemma feeder_at_once_lemma : forall (p : params) (sh : shape), params_ok p = true ->
+  forall ph s t, aborted_phase sh ph = true -> runs (feeder p sh ph) s t -> t = Some s.
+Proof.
+  intros p sh Hp ph s t Ha Hr.
+  destruct (feeder_in_time_lemma p sh Hp ph 0 s t (client_instant_lemma p sh Hp ph Ha) (Z.le_refl 0) Hr) as (z & Hz & Hle).
+  subst t. f_equal. lia.
+Qed.
